@@ -109,6 +109,12 @@ def validation_checks(ctx):
   bad = [dict(strategy='weird'), dict(strategy='max_tpr'), dict(strategy='max_tpr', min_rate=1.5),
          dict(strategy='max_tnr', min_rate=-0.1), dict(strategy='max_tnr', min_rate='a'),
          dict(strategy='f_beta', beta=None), dict(strategy='f_beta', beta='x'), dict(strategy='max_tpr', min_rate=None)]
+  # not numbers in [0, 1]: NaN, infinities, values just outside, non-real and non-scalar values; unknown strategies
+  for strat in ('max_tpr', 'max_tnr'):
+    for v in (float('nan'), float('inf'), float('-inf'), 1.0000001, -1e-9, 2, -1, '0.5', [0.5], 0.5j):
+      bad.append(dict(strategy=strat, min_rate=v))
+  bad += [dict(strategy='f_beta', beta=[1.0]), dict(strategy='f_beta', beta=1j), dict(strategy=None), dict(strategy='Accuracy'),
+          dict(strategy='max_fpr', min_rate=0.5)]
   for name in ('ITML', 'MMC', 'SDML'):
     est0 = host(name, 2)
     for b in bad:
